@@ -3,7 +3,11 @@
    extracted model (model.ml) only.
      runner [--schema <file>] [--edv]
    Codec-level lines: vi ve key dkey enc encr encp mrg mrgr skip ld
-   Message-level lines (need --schema): dec decq merge declen lendelim *)
+   Message-level lines (need --schema): dec decq merge declen lendelim
+     own <idx> <hex>   the ownership model (Own.own_decode / own_wrapper_decode):
+                       ok|err|panic H<live heap blocks> R<live handles on the input> T<handles of empty tail slices> when decode has returned
+                       (ok: what the returned value holds), B<number of places in the value where the Rust type may
+                       be a Box: message values not inside a Vec / map> *)
 open Model
 open Util
 
@@ -262,6 +266,28 @@ let cmd_merge t =
     | OOk (v, s) -> out_m (msg_merge !schema i v { rb = b2; ra = s.ra }) (show_msg i)
     | r -> out_m r (show_msg i)
 
+(* message values at positions where the generated struct may hold a Box (upper bound for the blocks the model does not count) *)
+let rec boxable (inside : bool) (v : val0) : int =
+  match v with
+  | VL (NMsg, xs) -> (if inside then 1 else 0) + List.fold_left (fun a x -> a + boxable true x) 0 xs
+  | VL (NSome, xs) | VL (NOne _, xs) -> List.fold_left (fun a x -> a + boxable true x) 0 xs
+  | VL (NRep, xs) -> List.fold_left (fun a x -> a + boxable false x) 0 xs
+  | VL (NMap, es) -> List.fold_left (fun a e -> match e with VL (NPair, [_; x]) -> a + boxable false x | _ -> a) 0 es
+  | _ -> 0
+
+let cmd_own t =
+  let ii = next_int t in
+  let i = nat_of_int ii in
+  let bytes = bytes_of_hex (next t) in
+  let (r, l) = match List.assoc_opt ii !wrappers with
+    | Some m -> own_wrapper_decode m (mk bytes)
+    | None -> own_decode !schema i (mk bytes) in
+  let hr = Printf.sprintf "H%s R%s T%s" (string_of_z l.l_heap) (string_of_z l.l_refs) (string_of_z l.l_tail) in
+  match r with
+  | OOk (v, _) -> Printf.sprintf "ok %s B%d" hr (boxable false v)
+  | OErr (e, _) -> Printf.sprintf "err %s %s" hr (string_of_perr e)
+  | OPanic p -> Printf.sprintf "panic %s %s" hr (string_of_psite p)
+
 (* encode a given value of message #i: the model's encode_raw / encoded_len / typing *)
 let cmd_encm t =
   let i = nat_of_int (next_int t) in
@@ -309,7 +335,7 @@ let suites : (string * (toks -> string)) list = [
   "vi", cmd_vi; "ve", cmd_ve; "key", cmd_key; "dkey", cmd_dkey; "enc", cmd_enc; "encr", cmd_encr;
   "encp", cmd_encp; "mrg", cmd_mrg; "mrgr", cmd_mrgr; "skip", cmd_skip; "ld", cmd_ld; "lendelim", cmd_lendelim;
   "rt", cmd_rt; "rtr", cmd_rtr; "rtp", cmd_rtp;
-  "dec", cmd_dec; "decq", cmd_dec; "declen", cmd_declen; "merge", cmd_merge; "encm", cmd_encm ]
+  "dec", cmd_dec; "decq", cmd_dec; "declen", cmd_declen; "merge", cmd_merge; "encm", cmd_encm; "own", cmd_own ]
 
 let () =
   let args = Array.to_list Sys.argv |> List.tl in
